@@ -117,6 +117,27 @@ def make_source(kind: str, data: bytes, schedule, default, tmpdir: str | None = 
         with open(p, "wb") as f:
             f.write(data)
         return open(p, "rb")  # noqa: SIM115  BufferedReader(FileIO)
+    if kind.startswith("socket"):
+        # a real socket pair fed by a thread in segments of 1460 bytes (first segment: 2 bytes)
+        import socket  # noqa: PLC0415
+        import threading  # noqa: PLC0415
+
+        a, b = socket.socketpair()
+
+        def feed():
+            try:
+                a.sendall(data[:2])
+                for i in range(2, len(data), 1460):
+                    a.sendall(data[i:i + 1460])
+            except OSError:
+                pass
+            finally:
+                a.close()
+
+        threading.Thread(target=feed, daemon=True).start()
+        f = b.makefile("rb", buffering=0 if kind == "socket-raw" else -1)
+        b.close()  # (the file object keeps the connection open)
+        return f
     if kind == "gzip-file":
         assert tmpdir is not None
         p = os.path.join(tmpdir, "s.jelly.gz")
@@ -210,7 +231,8 @@ def shard(job) -> dict:
         if api == "rdflib" and not entry["rdf11"]:
             continue
         for mode in ("flat", "grouped"):
-            for source in ("bytesio", "file", "gzip-file", "file-unbuffered", "gzip", "gzip-members-1", "gzip-members-2",
+            for source in ("bytesio", "file", "gzip-file", "file-unbuffered", "socket-raw",
+                           "socket-buffered", "gzip", "gzip-members-1", "gzip-members-2",
                            "gzip-members-3", "gzip-members-7", "tiny-buffer", "preamble-1",
                            "preamble-13", "preamble-14", "preamble-15", "preamble-16",
                            "preamble-17", "preamble-31"):
@@ -276,7 +298,8 @@ def run(ctx) -> None:
             f"schedule with <= {max_dev} deviation(s) (read #i returns 1, 2 or 3 bytes), each also "
             "wrapped in BufferedReader(buffer 16) and as a plain io.IOBase 'response' object (neither "
             "raw nor buffered); seekable sources BytesIO / file / unbuffered file "
-            "/ gzip over BytesIO / gzip.open on a file (also a 240 kB incompressible stream); x "
+            "/ gzip over BytesIO / gzip.open on a file (also a 240 kB incompressible stream and a "
+            "2.5 MB frame); real sockets (raw SocketIO and buffered makefile) fed in segments; x "
             "{flat, grouped} x {generic, rdflib}; oracle: identical to parsing from BytesIO; "
             "non-trivial = schedule with at least one short read"
         ),
